@@ -115,6 +115,20 @@ pub fn build(family: &str, tier: Tier) -> Vec<Cfg> {
                     }
                 }
             }
+            // a tiny output buffer on one connection only (operations interrupted half-written after a resumed reconnect)
+            for caps in [vec![4096usize, 5, 4096], vec![5, 4096, 4096]] {
+                for policy in [OfflineQueuePolicy::PreserveAll, OfflineQueuePolicy::PreserveNothing] {
+                    if !thorough && policy == OfflineQueuePolicy::PreserveNothing && caps[0] == 5 { continue; }
+                    let mut c = Cfg::base("resolve", &format!("caps{:?}-{:?}", caps, policy));
+                    c.caps = caps.clone(); c.offline = policy;
+                    c.submits = vec![spec("pub2", publish("t", 2)), spec("sub", subscribe(&["f"])), spec("pub1", publish("t", 1))];
+                    c.max_submits = 1; c.max_conns = 3; c.budget = if thorough { 3 } else { 2 }; c.max_depth = 90;
+                    c.allow.close = true;
+                    c.session_answers = vec![true, false];
+                    c.closure = true; c.closure_steps = 400;
+                    out.push(c);
+                }
+            }
             // small buffer and hostile acks
             for cap in [5usize] {
                 let mut c = Cfg::base("resolve", &format!("cap{}-hostile", cap));
@@ -410,6 +424,16 @@ pub fn build(family: &str, tier: Tier) -> Vec<Cfg> {
                     c.clock = Clock::Late(vec![1, 700]);
                     out.push(c);
                 }
+            }
+            for caps in [vec![4096usize, 5, 4096]] {
+                let mut c = Cfg::base("timeouts", &format!("caps{:?}-retries1", caps));
+                c.caps = caps; c.max_retries = Some(1);
+                c.submits = vec![spec_t("pub2-2000", publish("t", 2), 2000), spec_t("pub1-500", publish("t", 1), 500)];
+                c.max_submits = 1; c.max_conns = 3; c.budget = 3; c.max_depth = 90;
+                c.allow.close = true;
+                c.session_answers = vec![true];
+                c.clock = Clock::Late(vec![1]);
+                out.push(c);
             }
         }
         _ => {}
